@@ -174,6 +174,42 @@ def json_sources():
                                               "properties": {"id": {"type": "integer", "description": "the key"}, "col": prop}, "required": ["id"]}))
 
 
+# hand-written argparse functions: add_argument(...) keywords and type= expressions a generated function never contains
+ARGPARSE_ARGS = {
+    "type-dotted-required": "'--src', type=pathlib.Path, help='the src', required=True",
+    "type-dotted": "'--src', type=pathlib.Path, help='the src'",
+    "type-dotted-default": "'--src', type=os.path.abspath, help='the src', default='.'",
+    "type-loads": "'--cfg', type=loads, help='the cfg'",
+    "type-name-required": "'--n', type=int, help='the n', required=True",
+    "choices": "'--mode', choices=('a', 'b'), help='the mode', required=True",
+    "append": "'--tag', type=str, action='append', help='the tags'",
+    "no-type-no-help": "'--bare'",
+    "store-true": "'--flag', action='store_true', help='the flag'",
+    "default-none": "'--opt', type=str, default=None, help='the opt'",
+    "nargs": "'--many', type=int, nargs='+', help='the many'",
+}
+
+
+def argparse_sources():
+    for tag, args_ in ARGPARSE_ARGS.items():
+        yield ("argparse-src", tag, 'def set_cli_args(argument_parser):\n    """\n    Set CLI arguments\n\n    :param argument_parser: argument parser\n    :type argument_parser: ```ArgumentParser```\n\n    :return: argument_parser\n    :rtype: ```ArgumentParser```\n    """\n    argument_parser.description = "Conf"\n    argument_parser.add_argument("--first", type=int, help="the first", required=True)\n    argument_parser.add_argument(%s)\n    return argument_parser\n' % args_)
+
+
+def handle_value_replay():
+    """The contract on _handle_value, on real ast nodes: whatever it returns is a str"""
+    import cdd.argparse_function.utils.emit_utils as EU
+
+    for text in ("int", "loads", "pathlib.Path", "os.path.abspath", "f()", "x[0]", "lambda v: v", "'str'", "None", "a or b", "(int)", "-x"):
+        node = ast.parse(text, mode="eval").body
+        try:
+            r = EU._handle_value(node)
+        except Exception:
+            continue  # refusing a node is allowed
+        if not isinstance(r, str) or (isinstance(node, ast.Name) and node.id != "loads" and r != node.id):
+            return {"kind": "handle-value", "input": text, "what": "_handle_value(<%s node of %r>) returns %r (%s), not a type string" % (type(node).__name__, text, r, type(r).__name__)}
+    return None
+
+
 def check_one(job):
     kind = job[0]
     try:
@@ -199,6 +235,10 @@ def check_one(job):
                 node = ast.parse(job[2]).body[0]
                 fn = cdd.sqlalchemy.parse.sqlalchemy if isinstance(node, ast.ClassDef) else cdd.sqlalchemy.parse.sqlalchemy_table
                 return [((k, "sqlalchemy-source", job[1]), w, None) for k, w in well_formed(fn(node))]
+            if kind == "argparse-src":
+                import cdd.argparse_function.parse
+
+                return [((k, "argparse-source", job[1]), w, None) for k, w in well_formed(cdd.argparse_function.parse.argparse_ast(ast.parse(job[2]).body[0]))]
             if kind == "json-src":
                 import cdd.json_schema.parse
 
@@ -241,6 +281,7 @@ def main(tier, write_baseline=False):
         jobs += [("merge", m) for m in ("build", "__init__", "make")]
         jobs += list(sqla_sources())
         jobs += list(json_sources())
+        jobs += list(argparse_sources())
         pool = domain.param_pool(["int", "str", "bool", "Optional[int]", "Literal['x', 'y']"], docs=["the {name}", ""])
         irs = list(domain.irs(1, pool, suffix_defaults=True)) + list(domain.irs(2, pool, sample=60 if tier == "quick" else 600, seed=run.seed, suffix_defaults=True))
         for fmt in ("class", "pydantic", "function", "argparse", "json_schema", "sqlalchemy", "sqlalchemy_table"):
@@ -261,7 +302,7 @@ def main(tier, write_baseline=False):
                 fails.setdefault(key, (j[0], j[1:] if j[0] != "code" else [j[1], j[3], j[2]], what))
         run.bounded.append({
             "name": "well_formed_ir(result) as a run-time postcondition on the real parsers (bounded, NOT counted as proved)",
-            "bound": "%d grammar-generated docstrings (3 styles, sections in either order, *args/**kwargs entries, comma types with ', optional', notes/raises/examples, multi-line descriptions) through docstring.parse and parse_docstring; class_ with merge_inner_function on 3 methods; 18 hand-written SQLAlchemy models (class and Table) with Column keywords primary_key / nullable / default / comment / ForeignKey / unique / index; 7 hand-written JSON-schemas (patterns with underscores / digits / a regex / an empty alternative, missing description / type); %d generated interfaces x 7 code/schema formats x styles; %d token strings of <= 3 tokens as arbitrary text; %d evaluations raised" % (ndoc, len(irs), len(texts), raised),
+            "bound": "%d grammar-generated docstrings (3 styles, sections in either order, *args/**kwargs entries, comma types with ', optional', notes/raises/examples, multi-line descriptions) through docstring.parse and parse_docstring; class_ with merge_inner_function on 3 methods; 18 hand-written SQLAlchemy models (class and Table) with Column keywords primary_key / nullable / default / comment / ForeignKey / unique / index; 7 hand-written JSON-schemas (patterns with underscores / digits / a regex / an empty alternative, missing description / type); 11 hand-written argparse functions (type= as a dotted expression with / without required and default, loads, choices, append, store_true, nargs, bare option); %d generated interfaces x 7 code/schema formats x styles; %d token strings of <= 3 tokens as arbitrary text; %d evaluations raised" % (ndoc, len(irs), len(texts), raised),
             "rule": "one parser call per input; non-trivial = the parser returns",
             "evaluations": len(jobs), "distinct_nontrivial": len(jobs) - raised,
             "failures": [{"class": "|".join(map(str, k)), "what": v[2][:200]} for k, v in list(fails.items())[:6]],
@@ -271,7 +312,7 @@ def main(tier, write_baseline=False):
         if o["name"] in seen:
             continue
         seen.add(o["name"])
-        run.violation(o["name"], "obligation refuted by %s on path %s" % (o["backend"], " ".join(o["trace"])), failing_input=common.model_replay("contracts.C14", o), solver_output={"model": o["model"], "smt2": (o["smt2"] or "")[:4000]})
+        run.violation(o["name"], "obligation refuted by %s on path %s" % (o["backend"], " ".join(o["trace"])), failing_input=(handle_value_replay() if "_handle_value" in o["name"] else None) or common.model_replay("contracts.C14", o), solver_output={"model": o["model"], "smt2": (o["smt2"] or "")[:4000]})
     for key, (kind, payload, what) in sorted(fails.items(), key=str):
         cls = "|".join(str(k) for k in key)
         run.violation("C14/bounded/%s" % key[0], "[class %s] %s" % (cls, what), key={"class": cls}, failing_input={"kind": kind, "input": json.loads(json.dumps(payload, default=str))})
@@ -286,6 +327,10 @@ def replay(path):
     if not inp:
         return 1
     k, p = inp["kind"], inp["input"]
+    if k == "handle-value":
+        r = handle_value_replay()
+        print(r)
+        return 1 if r else 0
     if k == "code":
         from collections import OrderedDict
 
